@@ -45,13 +45,19 @@ def c05_invariants(case, ys):
     z = [float(v) for v in ys]
     Y = [float(v) for v in y]
     eps = _tol(Y)
+    import math
+    _lvl = max(abs(v) for v in Y)
+    peps = 4 * math.ulp(_lvl if _lvl else 1.0) + 1e-12 * (max(Y) - min(Y))
     for k in range(m - 1):
         seg = z[k * n:(k + 1) * n]
         nxt = z[(k + 1) * n]
         Yk = Y[k]
         Yl = Y[k - 1] if k > 0 else Y[0]
         Yr = Y[k + 1]
-        dev = [i for i in range(n) if abs(seg[i] - Yk) > eps]
+        # "differs from the interval's average": plateau samples are copies of the average, so membership is judged
+        # to a few ulp of the level (not to the looser comparison tolerance, which at large levels would make
+        # near-plateau transition samples look like plateau samples)
+        dev = [i for i in range(n) if abs(seg[i] - Yk) > peps]
         plat = [i for i in range(n) if i not in dev]
         if not plat:
             fails.append(fail("C05:no-plateau", {"interval": k, "segment": seg, "average": Yk}, key))
